@@ -658,6 +658,11 @@ impl ImageHandler for KittyImageHandler {
             ?img,
             "[KittyImageHandler.draw]"
         );
+        // there is nothing to transmit for an empty image, and placing an image
+        // that has never been transmitted is an error (ENOENT)
+        if img.is_empty() {
+            return Ok(());
+        }
         let img_id = kitty_image_id(img);
 
         // q   - suppress response from the terminal 1 - OK only, 2 - All.
